@@ -84,6 +84,7 @@ pub struct Shared {
     pub events: Vec<LockEv>,
     pub order_edges: BTreeSet<(String, Mode, String, Mode)>,
     pub reacquire: BTreeSet<String>,
+    pub reacquire_sites: BTreeSet<String>,
     pub digest: Digest,
     pub stats: Stats,
     prio: BTreeMap<u64, u64>,
@@ -135,12 +136,13 @@ impl Shared {
             events: Vec::new(),
             order_edges: BTreeSet::new(),
             reacquire: BTreeSet::new(),
+            reacquire_sites: BTreeSet::new(),
             digest: Digest::new(),
             stats: Stats::default(),
             prio: BTreeMap::new(),
             change_at,
             probes: BTreeMap::new(),
-            capture_backtraces: true,
+            capture_backtraces: false,
         }
     }
 
@@ -202,22 +204,94 @@ impl Shared {
         out
     }
 
-    /// Canonical class of the current blocked state: sorted multiset of
-    /// "<held locks> -> <wanted lock>" for blocked tasks that hold something or block someone.
+    /// Canonical class of the current blocked state: the hold-and-wait edges of the tasks that
+    /// are part of a wait-for cycle (victims that merely queue behind the cycle are left out).
+    /// T waits-for U when U holds the lock T wants in an incompatible mode, or when T wants a
+    /// read lock that only readers hold while U is a queued writer (fair, write-preferring
+    /// RwLock: a queued writer blocks later readers) and U in turn waits for the current readers.
     pub fn stall_class(&self) -> String {
+        let tasks: Vec<usize> = self.waiting.keys().copied().collect();
+        let incompatible = |want: Mode, held: Mode| !(want == Mode::R && held == Mode::R);
+        let mut edges: BTreeMap<usize, BTreeSet<usize>> = BTreeMap::new();
+        for (&t, &(lock, mode)) in &self.waiting {
+            let e = edges.entry(t).or_default();
+            for (ht, hl, hm) in &self.held {
+                if *hl == lock && (incompatible(mode, *hm) || *ht == t) && (*ht != t || true) {
+                    if *ht != t {
+                        e.insert(*ht);
+                    }
+                }
+            }
+            if mode == Mode::R {
+                // queued writers on the same lock block this reader
+                for (&u, &(ul, um)) in &self.waiting {
+                    if u != t && ul == lock && um == Mode::W {
+                        e.insert(u);
+                    }
+                }
+            }
+            // a writer is blocked by every current holder (covered above)
+        }
+        // tasks on a cycle: t reaches itself
+        let reach = |from: usize| -> BTreeSet<usize> {
+            let mut seen = BTreeSet::new();
+            let mut stack: Vec<usize> = edges.get(&from).map(|s| s.iter().copied().collect()).unwrap_or_default();
+            while let Some(x) = stack.pop() {
+                if seen.insert(x) {
+                    if let Some(n) = edges.get(&x) {
+                        stack.extend(n.iter().copied());
+                    }
+                }
+            }
+            seen
+        };
         let mut parts: Vec<String> = Vec::new();
-        for (task, (lock, mode)) in &self.waiting {
+        let mut all_parts: Vec<String> = Vec::new();
+        for t in tasks {
+            if !reach(t).contains(&t) {
+                continue;
+            }
+            let (lock, mode) = self.waiting[&t];
+            // the class names read-write locks only: a cycle member that holds nothing but a
+            // mutex (or nothing at all: the queued writer of a fair lock) adds no information
             let mut mine: Vec<String> = self
                 .held
                 .iter()
-                .filter(|(t, _, _)| t == task)
+                .filter(|(ht, _, hm)| *ht == t && *hm != Mode::M)
                 .map(|(_, l, m)| format!("{}.{m:?}", self.lock_names[*l]))
                 .collect();
             mine.sort();
-            parts.push(format!("{}->{}.{mode:?}", mine.join("+"), self.lock_names[*lock]));
+            mine.dedup();
+            all_parts.push(format!("{}->{}.{mode:?}", mine.join("+"), self.lock_names[lock]));
+            if !mine.is_empty() {
+                parts.push(format!("{}->{}.{mode:?}", mine.join("+"), self.lock_names[lock]));
+            }
+        }
+        if parts.is_empty() {
+            parts = all_parts;
         }
         parts.sort();
         parts.dedup();
+        if parts.is_empty() {
+            // blocked without a lock cycle (e.g. waiting for a message that never comes)
+            let mut hw: Vec<String> = Vec::new();
+            for (task, (lock, mode)) in &self.waiting {
+                let mut mine: Vec<String> = self
+                    .held
+                    .iter()
+                    .filter(|(t, _, _)| t == task)
+                    .map(|(_, l, m)| format!("{}.{m:?}", self.lock_names[*l]))
+                    .collect();
+                if mine.is_empty() {
+                    continue;
+                }
+                mine.sort();
+                hw.push(format!("{}->{}.{mode:?}", mine.join("+"), self.lock_names[*lock]));
+            }
+            hw.sort();
+            hw.dedup();
+            return format!("no-cycle[{}]", hw.join(" | "));
+        }
         parts.join(" | ")
     }
 }
@@ -320,13 +394,18 @@ impl Controller for SimController {
                     .collect();
                 for (l, m) in &mine {
                     if *l == lock {
-                        let key = format!("{}:{m:?}->{mode:?}", s.lock_names[lock]);
-                        let site = if s.capture_backtraces {
-                            backtrace_site(&key)
-                        } else {
-                            String::new()
-                        };
-                        s.reacquire.insert(format!("{key}@{site}"));
+                        // class = lock, modes and what else the task holds at that moment (a cheap
+                        // discriminator between call sites); the source location is resolved from
+                        // a backtrace only in reporting runs (symbolisation costs ~100 ms)
+                        let mut holding: Vec<String> =
+                            mine.iter().map(|(hl, hm)| format!("{}.{hm:?}", s.lock_names[*hl])).collect();
+                        holding.sort();
+                        let key = format!("{}:{m:?}->{mode:?}#holding[{}]", s.lock_names[lock], holding.join(","));
+                        if s.capture_backtraces {
+                            let site = backtrace_site(&key);
+                            s.reacquire_sites.insert(format!("{key} at {site}"));
+                        }
+                        s.reacquire.insert(key);
                     } else {
                         let e = (s.lock_names[*l].clone(), *m, s.lock_names[lock].clone(), mode);
                         s.order_edges.insert(e);
@@ -375,11 +454,16 @@ fn backtrace_site(key: &str) -> String {
     let mut site = String::from("?");
     for line in bt.lines() {
         let l = line.trim();
-        if let Some(pos) = l.find("emmylua_ls::") {
-            let f = &l[pos..];
-            let f = f.split("::{{closure}}").next().unwrap_or(f);
-            let f = f.trim_end_matches("::{{closure}}");
-            site = f.rsplit("::").next().unwrap_or(f).to_string();
+        // frame lines look like "12: emmylua_ls::handlers::...::{{closure}}"
+        let sym = match l.split_once(": ") {
+            Some((n, rest)) if n.chars().all(|c| c.is_ascii_digit()) => rest,
+            _ => continue,
+        };
+        if sym.starts_with("emmylua_ls::") || sym.starts_with("<emmylua_ls::") {
+            let f = sym.replace("::{{closure}}", "");
+            let parts: Vec<&str> = f.split("::").collect();
+            let n = parts.len();
+            site = if n >= 2 { format!("{}::{}", parts[n - 2], parts[n - 1]) } else { f.clone() };
             break;
         }
     }
